@@ -186,12 +186,211 @@ Proof. intros Hl. unfold bind. now rewrite arr_complete. Qed.
 
 Ltac wf_solve := first [assumption | exact I | (unfold wf_u8; lia) | (unfold wf_key, wf_arr in *; assumption) | tauto | eauto].
 
+Lemma bind_ret {A B} (v : A) (k : A -> dec B) s : bind (ret v) k s = k v s.
+Proof. reflexivity. Qed.
+
+Lemma bind_assoc {A B C} (d : dec A) (k1 : A -> dec B) (k2 : B -> dec C) s :
+  bind (bind d k1) k2 s = bind d (fun a => bind (k1 a) k2) s.
+Proof. unfold bind. destruct (d s) as [[a|e|] r]; reflexivity. Qed.
+
 Ltac cstep :=
   first
-    [ rewrite bind_arr by wf_solve
+    [ rewrite bind_ret
+    | rewrite bind_assoc
+    | progress cbn [app]
+    | rewrite bind_arr by wf_solve
     | match goal with
-      | |- bind ?d ?k (?x ++ ?r) = _ => erewrite (bind_complete d k) by wf_solve
+      | |- bind ?d ?k (?x ++ ?r) = _ =>
+          let H := fresh "HC" in
+          eassert (H : Complete d _ _) by typeclasses eauto;
+          rewrite (@bind_complete _ _ d k _ _ H) by wf_solve; clear H
       end ].
 
 Ltac cnorm := repeat rewrite <- app_assoc.
 Ltac csteps := cnorm; repeat cstep; unfold ret; try reflexivity.
+
+(* ---- component types ----------------------------------------------------------------------------------------- *)
+Lemma bind_u8_tag {B} (k : N -> dec B) t r : t < 256 -> bind dec_u8 k (enc_u8 t ++ r) = k t r.
+Proof. intros Ht. unfold bind. now rewrite (complete_pf (d := dec_u8)) by exact Ht. Qed.
+
+Global Instance complete_txin : Complete dec_txin enc_txin wf_txin.
+Proof.
+  intros a r H. unfold dec_txin, enc_txin. destruct a as [h|am ko ki]; cbn [wf_txin] in H.
+  - cnorm. rewrite bind_u8_tag by lia. cbn [N.eqb Pos.eqb]. change (255 =? 255) with true. cbv iota. csteps.
+  - destruct H as (Ha & Hko & Hki). cnorm. rewrite bind_u8_tag by lia.
+    change (2 =? 255) with false. change ((2 =? 0) || (2 =? 1)) with false. change (2 =? 2) with true. cbv iota.
+    csteps.
+Qed.
+
+Global Instance complete_target : Complete dec_target enc_target wf_target.
+Proof.
+  intros a r H. unfold dec_target, enc_target. destruct a as [k|k v]; cbn [wf_target] in H.
+  - cnorm. rewrite bind_u8_tag by lia. change (2 =? 2) with true. cbv iota. csteps.
+  - destruct H as [Hk Hv]. cnorm. rewrite bind_u8_tag by lia.
+    change (3 =? 2) with false. change (3 =? 3) with true. cbv iota. csteps.
+Qed.
+
+Global Instance complete_txout : Complete dec_txout enc_txout wf_txout.
+Proof.
+  intros a r [Ha Ht]. unfold dec_txout, enc_txout. destruct a as [am t]. cbn [o_amount o_target] in *. csteps.
+Qed.
+
+Global Instance complete_prefix sz : Complete (dec_prefix sz) enc_prefix (wf_prefix sz).
+Proof.
+  intros a r (Hv & Hu & Hi & Ho & He). unfold dec_prefix, enc_prefix. destruct a as [v u i o e].
+  cbn [version unlock_time inputs outputs extra] in *. csteps.
+Qed.
+
+Global Instance complete_signature : Complete dec_signature enc_signature wf_signature.
+Proof.
+  intros a r [Hc Hr]. unfold dec_signature, enc_signature, dec_hash. destruct a as [c r0].
+  cbn [sig_c sig_r] in *. csteps.
+Qed.
+
+Global Instance complete_rct_type : Complete dec_rct_type enc_rct_type (fun _ => True).
+Proof.
+  intros a r _. unfold dec_rct_type, enc_rct_type. rewrite bind_u8_tag by (destruct a; cbn; lia).
+  destruct a; reflexivity.
+Qed.
+
+Global Instance complete_ecdh t : Complete (dec_ecdh t) enc_ecdh (wf_ecdh t).
+Proof.
+  intros a r H. unfold dec_ecdh, enc_ecdh, dec_hash, dec_hash8.
+  destruct t, a as [m am|am]; cbn [wf_ecdh] in H; try contradiction; try destruct H as [Hm Ha]; csteps.
+Qed.
+
+Global Instance complete_borosig : Complete dec_borosig enc_borosig wf_borosig.
+Proof.
+  intros a r (H0 & H1 & He). unfold dec_borosig, enc_borosig, dec_key64, dec_hash. destruct a as [s0 s1 ee].
+  cbn [bs_s0 bs_s1 bs_ee] in *. csteps.
+Qed.
+
+Global Instance complete_rangesig : Complete dec_rangesig enc_rangesig wf_rangesig.
+Proof.
+  intros a r (Ha & Hc). unfold dec_rangesig, enc_rangesig, dec_key64. destruct a as [asig ci].
+  cbn [rs_asig rs_Ci] in *. csteps.
+Qed.
+
+Global Instance complete_bulletproof : Complete dec_bulletproof enc_bulletproof wf_bulletproof.
+Proof.
+  intros a r H. unfold wf_bulletproof in H. decompose [and] H. clear H.
+  unfold dec_bulletproof, enc_bulletproof, dec_hash. csteps. now destruct a.
+Qed.
+
+Global Instance complete_bpplus : Complete dec_bpplus enc_bpplus wf_bpplus.
+Proof.
+  intros a r H. unfold wf_bpplus in H. decompose [and] H. clear H.
+  unfold dec_bpplus, enc_bpplus, dec_hash. csteps. now destruct a.
+Qed.
+
+Global Instance complete_header : Complete dec_header enc_header wf_header.
+Proof.
+  intros a r (H1 & H2 & H3 & H4 & H5). unfold dec_header, enc_header, dec_hash, dec_u32.
+  assert (nonce a < 256 ^ N.of_nat 4) by exact H5. csteps. now destruct a.
+Qed.
+
+Global Instance complete_clsag mixin : Complete (dec_clsag mixin) enc_clsag (wf_clsag mixin).
+Proof.
+  intros a r (Hs & Hl & Hc & Hd). unfold dec_clsag, enc_clsag, dec_hash. destruct a as [s c1 D].
+  cbn [cl_s cl_c1 cl_D] in *. csteps.
+Qed.
+
+Global Instance complete_mgsig mixin cols : Complete (dec_mgsig mixin cols) enc_mgsig (wf_mgsig mixin cols).
+Proof.
+  intros a r (Hs & Hl & Hc). unfold dec_mgsig, enc_mgsig, dec_hash. destruct a as [ss cc].
+  cbn [mg_ss mg_cc] in *. csteps.
+Qed.
+
+(* ---- RingCT base / prunable ------------------------------------------------------------------------------------ *)
+Lemma bind_rct_type {B} (k : rct_type -> dec B) t r : bind dec_rct_type k (enc_rct_type t ++ r) = k t r.
+Proof. unfold bind. now rewrite (complete_pf (d := dec_rct_type)). Qed.
+
+Global Instance complete_rct_base n_in n_out : Complete (dec_rct_base n_in n_out) enc_rct_base (wf_rct_base n_in n_out).
+Proof.
+  intros a r H. unfold dec_rct_base, enc_rct_base, wf_rct_base in *. destruct a as [t fee po ecdh opk].
+  cbn [rb_type rb_fee rb_pseudo_outs rb_ecdh rb_out_pk] in *. cnorm. rewrite bind_rct_type.
+  destruct t; cbn [rct_type_eqb] in *;
+    [ destruct H as (-> & -> & -> & ->); reflexivity | .. ];
+    destruct H as (Hf & Hp & He & Hl & Ho); try subst po; unfold dec_hash; csteps.
+Qed.
+
+Lemma complete_rct_prunable sz t n_in n_out mixin p r :
+  t <> RNull -> wf_rct_prunable sz t n_in n_out mixin p ->
+  dec_rct_prunable sz t n_in n_out mixin (enc_rct_prunable p t ++ r) = (Ok p, r).
+Proof.
+  intros Ht H. unfold dec_rct_prunable, enc_rct_prunable, wf_rct_prunable in *.
+  destruct p as [rs bps bpp mgs cls po].
+  cbn [rp_range_sigs rp_bulletproofs rp_bulletproofplus rp_MGs rp_Clsags rp_pseudo_outs] in *.
+  destruct t; try congruence;
+    cbn [is_rct_bp is_rct_bp_plus uses_clsag has_p_pseudo is_simple_or_bp] in *;
+    destruct H as (Hp & Hs & Hq); decompose [and] Hp; decompose [and] Hs; subst; unfold dec_hash, dec_u32;
+    try match goal with Hb : lenN ?l < 2 ^ 32 |- _ =>
+          rewrite (N.mod_small (lenN l) (2 ^ 32)) by exact Hb;
+          assert (lenN l < 256 ^ N.of_nat 4) by exact Hb end;
+    csteps.
+Qed.
+
+(* ---- Transaction / Block ------------------------------------------------------------------------------------------ *)
+Lemma complete_v1_sigs ins : forall rows r,
+  wf_v1_sigs ins rows -> dec_v1_sigs ins (enc_list (enc_list enc_signature) rows ++ r) = (Ok rows, r).
+Proof.
+  induction ins as [|i t IH]; intros rows r H.
+  - destruct rows; [reflexivity|contradiction].
+  - destruct i as [h|am ko ki]; cbn [dec_v1_sigs wf_v1_sigs] in *.
+    + now apply IH.
+    + destruct rows as [|row rest]; [contradiction|]. destruct H as (Hrow & Hl & Hrest).
+      change (enc_list (enc_list enc_signature) (row :: rest))
+        with (enc_list enc_signature row ++ enc_list (enc_list enc_signature) rest).
+      rewrite <- Hl. csteps. unfold bind. now rewrite IH.
+Qed.
+
+Global Instance complete_tx sz : Complete (dec_tx sz) enc_tx (wf_tx sz).
+Proof.
+  intros a r H. unfold wf_tx in H. destruct a as [p sigs rct]. cbn [tx_prefix tx_signatures tx_rct] in H.
+  destruct H as [Hp H]. unfold dec_tx, enc_tx. cbn [tx_prefix tx_signatures tx_rct]. cnorm.
+  rewrite (bind_complete (dec_prefix sz) _ enc_prefix (wf_prefix sz)) by exact Hp.
+  destruct (version p =? 1) eqn:Ev.
+  - destruct H as [Hs ->]. unfold bind. rewrite complete_v1_sigs by exact Hs. reflexivity.
+  - destruct H as [-> H]. destruct (lenN (inputs p) =? 0) eqn:Ei.
+    + subst rct. reflexivity.
+    + destruct rct as [[b|] pr]; cbn [rct_base_of rct_p] in *; [|contradiction].
+      destruct H as [Hb H]. cnorm.
+      rewrite (bind_complete (dec_rct_base (lenN (inputs p)) (lenN (outputs p))) _ enc_rct_base
+                 (wf_rct_base (lenN (inputs p)) (lenN (outputs p)))) by exact Hb.
+      destruct (rb_type b) eqn:Et; [subst pr; reflexivity|..];
+        destruct H as (mixin & q & Hm & -> & Hq); unfold mixin_of in Hm; rewrite Hm;
+        unfold bind; rewrite complete_rct_prunable by (congruence || exact Hq); reflexivity.
+Qed.
+
+Global Instance complete_block sz : Complete (dec_block sz) enc_block (wf_block sz).
+Proof.
+  intros a r (Hh & Ht & Hx). unfold dec_block, enc_block, dec_hash. csteps. now destruct a.
+Qed.
+
+(* strict parsing of a serialisation succeeds; any non-empty trailer makes it fail;
+   partial parsing reports exactly the number of bytes produced *)
+Lemma strict_complete {A} (d : dec A) e wf `{Complete A d e wf} a :
+  wf a -> deserialize d (e a) = Ok a.
+Proof.
+  intros Hw. unfold deserialize, deserialize_partial. rewrite <- (app_nil_r (e a)) at 1.
+  rewrite complete_pf by exact Hw. unfold lenN. cbn [length].
+  replace (N.of_nat (length (e a)) - N.of_nat 0 =? N.of_nat (length (e a))) with true; [reflexivity|].
+  symmetry. apply N.eqb_eq. lia.
+Qed.
+
+Lemma strict_rejects_trailing {A} (d : dec A) e wf `{Complete A d e wf} a t :
+  wf a -> t <> [] -> deserialize d (e a ++ t) = Err EBad.
+Proof.
+  intros Hw Ht. unfold deserialize, deserialize_partial. rewrite complete_pf by exact Hw.
+  unfold lenN. rewrite app_length.
+  replace (N.of_nat (length (e a) + length t) - N.of_nat (length t) =? N.of_nat (length (e a) + length t)) with false;
+    [reflexivity|].
+  symmetry. apply N.eqb_neq. destruct t; [congruence|]. cbn [length]. lia.
+Qed.
+
+Lemma partial_consumed {A} (d : dec A) e wf `{Complete A d e wf} a t :
+  wf a -> deserialize_partial d (e a ++ t) = Ok (a, lenN (e a)).
+Proof.
+  intros Hw. unfold deserialize_partial. rewrite complete_pf by exact Hw. unfold lenN. rewrite app_length.
+  f_equal. f_equal. lia.
+Qed.
